@@ -149,11 +149,16 @@ class CallMixin:
     # -- constructors -------------------------------------------------------------
     def construct(self, cls: ClassInfo, args, kwargs, frame, node):
         if not cls.is_attrs:
-            if "__init__" in cls.methods:
-                raise Unmodelled("class %s with hand-written __init__ at %s" % (cls.name, frame.loc(node)))
-            if args or kwargs:
-                raise RaiseSignal("TypeError", "%s() takes no arguments" % cls.name, node, frame)
-            return ObjV(cls, {})
+            obj = ObjV(cls, {})
+            init = cls.methods.get("__init__")
+            if init is None:
+                if args or kwargs:
+                    raise RaiseSignal("TypeError", "%s() takes no arguments" % cls.name, node, frame)
+                return obj
+            # a plain class: the object is what its (own or inherited) __init__ makes of it
+            self.ctx.event("construct", (cls.name, obj), frame.loc(node))
+            self.call_repo(init, obj, args, kwargs, frame, node, force_inline=True)
+            return obj
         names = [f.name for f in cls.fields]
         if len(args) > len(names):
             raise RaiseSignal("TypeError", "%s() takes %d positional arguments but %d were given"
